@@ -4,6 +4,8 @@ import (
 	"errors"
 	"fmt"
 	"io"
+	"net"
+	"os"
 	"strings"
 	"sync"
 
@@ -17,7 +19,47 @@ type Decision struct {
 	Code int    `json:"code,omitempty"`
 	Enh  [3]int `json:"enh,omitempty"`
 	Msg  string `json:"msg,omitempty"`
+	// Flavour (Kind "plain" only) says what sort of Go error carries Msg: ""
+	// an errors.New value; "temp" one whose Temporary() reports true; "timeout"
+	// a net.Error that is a timeout; "wrapped" a fmt.Errorf chain around a
+	// sentinel; "eof" / "ueof" / "closed" / "deadline" the standard library's
+	// io.EOF, io.ErrUnexpectedEOF, net.ErrClosed, os.ErrDeadlineExceeded
+	// themselves (Msg is then their text). None of them is an *SMTPError, so
+	// every property treats them alike.
+	Flavour string `json:"flavour,omitempty"`
 }
+
+// PlainFlavours lists the values Flavour may take.
+var PlainFlavours = []string{"", "temp", "timeout", "wrapped", "eof", "ueof", "closed", "deadline"}
+
+// FlavourText is the error text of a flavour that stands for a fixed error
+// value ("" when the flavour carries the decision's own Msg).
+func FlavourText(f string) string {
+	switch f {
+	case "eof":
+		return io.EOF.Error()
+	case "ueof":
+		return io.ErrUnexpectedEOF.Error()
+	case "closed":
+		return net.ErrClosed.Error()
+	case "deadline":
+		return os.ErrDeadlineExceeded.Error()
+	}
+	return ""
+}
+
+type tempError struct{ msg string }
+
+func (e tempError) Error() string   { return e.msg }
+func (e tempError) Temporary() bool { return true }
+
+type netTimeoutError struct{ msg string }
+
+func (e netTimeoutError) Error() string   { return e.msg }
+func (e netTimeoutError) Timeout() bool   { return true }
+func (e netTimeoutError) Temporary() bool { return true }
+
+var _ net.Error = netTimeoutError{}
 
 func (d Decision) OK() bool { return d.Kind == "" || d.Kind == "ok" }
 
@@ -30,12 +72,31 @@ func (d Decision) Err() error {
 	case "smtp":
 		return &smtp.SMTPError{Code: d.Code, EnhancedCode: smtp.EnhancedCode(d.Enh), Message: d.Msg}
 	case "plain":
+		switch d.Flavour {
+		case "temp":
+			return tempError{d.Msg}
+		case "timeout":
+			return netTimeoutError{d.Msg}
+		case "wrapped":
+			// Msg is kept as the whole text
+			return fmt.Errorf("%s%w", d.Msg, errEmptySentinel)
+		case "eof":
+			return io.EOF
+		case "ueof":
+			return io.ErrUnexpectedEOF
+		case "closed":
+			return net.ErrClosed
+		case "deadline":
+			return os.ErrDeadlineExceeded
+		}
 		return errors.New(d.Msg)
 	case "panic":
 		panic("scripted backend panic: " + d.Msg)
 	}
 	panic("bad decision kind " + d.Kind)
 }
+
+var errEmptySentinel = errors.New("")
 
 // ReadPlan says how the backend consumes the message reader.
 type ReadPlan struct {
